@@ -301,7 +301,10 @@ def build():
             {"name": "tlc+vf", "path": "/verif/check",
              "serves_properties": sorted(CHECKS),
              "kind_free_text": "TLA+ specifications in /verif/spec checked by TLC 1.8; Python harness /verif/vf binds them "
-                               "to nessai by trace validation (code->spec) and behaviour replay (spec->code)"},
+                               "to nessai by trace validation (code->spec) and behaviour replay (spec->code); Apalache "
+                               "0.58 discharges unbounded integer theorems / inductive invariants (Threshold.tla in "
+                               "C17, spec/apalache/MC_Schedule.tla in C12); tlapm proves the operator lemmas in "
+                               "spec/proofs (C12)"},
         ],
         "checks": checks,
         "notes": "See DESIGN.md. Exit 0 held / 1 violation (VIOLATION line) / 2 machinery failure. "
